@@ -20,7 +20,7 @@ def one_walk(tt, torch, rng, steps):
     objs.append(rnd_tt(N)); objs.append(rnd_tt(N, 1)); objs.append(rnd_ttm(N))
     for _ in range(steps):
         op = rng.choice(["add", "sub", "mul", "neg", "round", "round_rmax", "reshape", "permute", "index", "sum", "cat", "pad", "matvec", "kron",
-                         "set_core", "set_core_neg", "ctor_sub", "reduce_dims", "to_ttm", "diag", "clone", "scal", "adds", "div_s", "norm", "full", "t", "conj", "hadamard",
+                         "set_core", "set_core_neg", "ctor_sub", "ctor_dense", "reduce_dims", "to_ttm", "diag", "clone", "scal", "adds", "div_s", "norm", "full", "t", "conj", "hadamard",
                          "fast_matvec", "amen_mv", "div", "dot_axes", "mprod", "to_qtt"])
         tens = [o for o in objs if not o.is_ttm]
         mats = [o for o in objs if o.is_ttm]
@@ -55,6 +55,12 @@ def one_walk(tt, torch, rng, steps):
             elif op == "ctor_sub":            # a sub-chain of cores: a valid object only if the cut bond has rank one
                 cs = list(x.cores[1:]) if rng.random() < 0.5 else list(x.cores[:-1])
                 out = tt.TT(cs) if len(cs) > 0 else None
+            elif op == "ctor_dense":          # constructor forms: dense source with a tensor or an order-1 / order-2 operator shape
+                form = rng.choice(["t", "m1", "m1flat", "m2"])
+                if form == "t": out = tt.TT(torch.randn(2, 3, dtype=dt))
+                elif form == "m1": out = tt.TT(torch.randn(3, 4, dtype=dt), [(3, 4)])
+                elif form == "m1flat": out = tt.TT(torch.randn(8, dtype=dt), [(4, 2)])
+                else: out = tt.TT(torch.randn(2, 3, 3, 2, dtype=dt), [(2, 3), (3, 2)])
             elif op == "reduce_dims": x.reduce_dims(); out = None
             elif op == "to_ttm": out = x.to_ttm()
             elif op == "diag": out = tt.diag(x) if int(np.prod(x.N)) <= 16 else x.clone()
